@@ -14,6 +14,7 @@ import Receptor.Drive.Work
 import Receptor.Drive.Status
 import Receptor.Drive.Ctl
 import Receptor.Drive.Results
+import Receptor.Drive.Life
 /-! Line-protocol driver: one JSON request per line `{"e":engine,"op":op,"a":args,"r":impl-observation}`,
 one JSON reply per line `{"m":model-result,"prop":true|false|null,"why":…}` or `{"bad-op":…}`. -/
 open Lean Receptor.Drive
@@ -38,6 +39,7 @@ def dispatch (e op : String) (a r : Json) : Except String Reply :=
   | "status" => Receptor.Drive.Status.handle op a r
   | "ctl" => Receptor.Drive.Ctl.handle op a r
   | "results" => Receptor.Drive.Results.handle op a r
+  | "life" => Receptor.Drive.Life.handle op a r
   | _ => throw s!"bad-op unknown engine {e}"
 
 def handleLine (line : String) : String :=
